@@ -213,7 +213,7 @@ def generate(rng, directory, tag):
             f.write("\n".join(s.lines) + "\n")
         paths.append(p)
     return {"main": main.name, "files": paths, "entry": entry, "version": version, "mode": mode, "nlines": [len(s.lines) for s in srcs], "repeats": repeats,
-            "assemble": version >= 3 and rng.random() < .4}
+            "assemble": version >= 3 and rng.random() < .4, "typetrack": not (entry == "program" and rng.random() < .25)}
 
 
 def marker_of_int(n):
